@@ -22,7 +22,9 @@ TOOL = 3
 
 
 class OnePreemption:
-    def __init__(self, k, n_others, hold_timeout=1.0, hold="quiescent"):
+    FILES = ("run_function_on_graph.py", "scheduler.py", "queue.py")
+
+    def __init__(self, k, n_others, hold_timeout=1.0, hold="quiescent", files=None):
         self.hold = hold  # "others": until the other predecessors' workers finished their bookkeeping; "quiescent": until nothing else can move
         self.k = k  # position to hold TA at (None = just count)
         self.n_others = n_others
@@ -40,7 +42,7 @@ class OnePreemption:
         self.finished_native = set()
         self.skip_native = set()  # kernel threads that do not belong to the run (harness watchers)
         self.waiting_native = set()  # plan functions in a timed harness wait (they are waiting for TA): not "the rest of the process" for the probes
-        self.codes = [c for c in perturb.discover_codes() if c.co_filename.endswith(("run_function_on_graph.py", "scheduler.py", "queue.py"))]
+        self.codes = [c for c in perturb.discover_codes() if c.co_filename.endswith(tuple(files or self.FILES))]
         self.pn = [c for c in self.codes if c.co_name == "process_node"]
         self.active = False
 
@@ -708,4 +710,109 @@ def enumerate_fail_limit(desc):
            "sig": hashlib.sha1(f"errlimit|{me}|{W}|{sched}|{shape}".encode()).hexdigest()[:16], "sample": {"desc": desc, "positions_N": N}}
     if bad:
         res.update(status="violation", detail=bad, mechanism="limits-errors", witness=witness)
+    return res
+
+
+# ----------------------------------------------------------------------------------------------- release of results under preemption
+def run_release(k, n_consumers, W, sched, seed, hold="quiescent", twice=False):
+    """x -> c_1 .. c_n (consumers of x's result, all executing at the same time) -> tail (depends on all of them). TA = the worker of c_1; it
+    returns first and is held at the k-th instruction it executes afterwards - in run_physical's own bookkeeping (dropping the bound call,
+    whatever accounting of readers there is) as well as in the graph runner's - while the other consumers return and run their whole
+    bookkeeping. When `tail` starts, every consumer of x has finished: x's result must be unreachable."""
+    import gc
+    import time
+
+    from . import ir as irmod, plainrun
+
+    ref = irmod.ref
+    ir = irmod.IR()
+    x = ir.add("call", fname="x")
+    cons = [ir.add("call", fname=f"c{i}", args=[ref(x.id), ref(x.id)] if (twice and i == 0) else [ref(x.id)]) for i in range(n_consumers)]
+    tail = ir.add("call", fname="tail")
+    for c in cons:
+        ir.deps.append((c.id, tail.id))
+    ir.output = irmod.X("list", [ref(tail.id)])
+    ir.meta["family"] = "preempt:release"
+    OP = OnePreemption(k, n_consumers - 1, hold=hold, files=OnePreemption.FILES + ("run_physical.py",))
+    holder = {}
+    seen = {}
+    a = cons[0].id
+    others = {c.id for c in cons[1:]}
+
+    def pre(nid, att):
+        H = holder["R"].H
+        if nid == a:
+            end = time.monotonic() + 1.0
+            while time.monotonic() < end:
+                with H.lock:
+                    started = sum(1 for c in cons if c.id in H.attempts)
+                if started == len(cons):
+                    break
+                time.sleep(0.0002)
+        elif nid in others:
+            OP.wait_for_ta()
+        elif nid == tail.id:
+            gc.collect()
+            wr = H.result_refs.get(x.id)
+            seen["alive"] = wr is not None and wr() is not None
+            seen["checked"] = wr is not None
+
+    def post(nid, att, res):
+        if nid == a:
+            OP.arm()
+
+    desc = {"seed": seed, "n": len(ir.nodes), "W": W, "sched": sched, "perturb": "none", "delays": "none"}
+    with OP:
+        def before_run(R_):
+            holder["R"] = R_
+            if R_.hang_drv is not None and R_.hang_drv.thread is not None:
+                OP.skip_native.add(R_.hang_drv.thread.native_id)
+
+        R = plainrun.execute(desc, pre=pre, post=post, record_args=False, track_results=True, ir=ir, before_run=before_run)
+    return R, OP, ir, seen
+
+
+def enumerate_release(desc):
+    import hashlib
+
+    nc, W, sched, twice = desc["consumers"], desc["W"], desc["sched"], desc.get("twice", False)
+
+    def oracle(R, seen):
+        if R.exc is not None:
+            return f"run raised {R.exc!r}"
+        if not seen.get("checked"):
+            return None
+        if seen.get("alive"):
+            return "the result of x is still alive when `tail` starts although every call that consumes it has finished"
+        return None
+
+    R, OP, ir, seen = run_release(None, nc, W, sched, desc["seed"], twice=twice)
+    N = OP.count
+    if N == 0 or not seen.get("checked"):
+        return {"status": "inconclusive", "detail": f"release preemption: nothing counted / checked (N={N}, {seen})"}
+    bad = oracle(R, seen)
+    counters = {"preempt_release_cases": 1, "preempt_release_positions": 0, "preempt_release_liveness_checks": 1, "preempt_release_holds_others_completed": 0}
+    points = set()
+    witness = None
+    if bad is None:
+        for k in range(1, N + 1):
+            for hold in ("others", "quiescent"):
+                R, OP, ir, seen = run_release(k, nc, W, sched, desc["seed"] + k, hold=hold, twice=twice)
+                counters["preempt_release_positions"] += 1
+                counters["preempt_release_liveness_checks"] += int(bool(seen.get("checked")))
+                if OP.held_at is not None:
+                    points.add(f"{OP.held_at[0]}@{OP.held_at[1]}")
+                    counters["preempt_release_holds_others_completed"] += int(not OP.hold_expired)
+                bad = oracle(R, seen)
+                if bad:
+                    bad = (f"[{nc} consumers of one result finish together; the worker of the first is held at its instruction #{k} of {N} ({OP.held_at}) while the "
+                           f"others complete; W={W}, {sched}] {bad}")
+                    witness = {"history": R.H.compact_history(80), "k": k, "held_at": OP.held_at}
+                    break
+            if bad:
+                break
+    res = {"status": "ok", "counters": counters, "sets": {"preempt_release_points_held": sorted(points)}, "nontrivial": counters["preempt_release_holds_others_completed"] > 0,
+           "sig": hashlib.sha1(f"release|{nc}|{W}|{sched}|{twice}".encode()).hexdigest()[:16], "sample": {"desc": desc, "positions_N": N}}
+    if bad:
+        res.update(status="violation", detail=bad, mechanism="result-retained", witness=witness)
     return res
